@@ -4,12 +4,15 @@
 //
 // The prior state is a real predecessor block P (built once: a transfer, a pour and successful settings
 // updates of the faucet, miner (settings and globals) and storage contracts, so that the accounts and the
-// configuration objects the state cache keeps have been read and written).  "warm" = the global state cache of a node that has executed P itself (P is re-executed
-// through Block.ComputeState on a fresh cache, which commits P's values, then the block under test
-// runs); "cold" = a node that starts with an empty state cache and reads everything from the trie
-// (restart, cache gap); "used" = the cache as the previous runs of the same block left it (a node that
-// executes the block a second time).  A block built directly on genesis would never see a warm cache:
-// nothing is cached under the genesis hash.
+// configuration objects the state cache keeps have been read and written).
+//
+//	warm  the global state cache of a node that has executed P itself: P is re-executed through
+//	      Block.ComputeState on a fresh cache, which commits P's values, then the block under test runs
+//	      (the first two runs continue on the cache the generator produced the block with)
+//	cold  a node that starts with an empty state cache and reads everything from the trie (restart, gap)
+//	used  the cache as the previous runs of the same block left it (a node executing the block again)
+//
+// A block built directly on genesis never sees a warm cache: nothing is cached under the genesis hash.
 package blockexec
 
 import (
@@ -99,9 +102,12 @@ func fields(kv ...string) map[string]interface{} {
 func (d *drv) buildPrior() {
 	w := d.w
 	w.BeginBlock(w.Genesis)
-	for i, k := range []string{"send", "pour", "govok", "govok_miner", "govok_storage", "prior_globals"} {
+	for i, k := range []string{"send", "pour", "govok", "govok_miner", "prior_storage", "prior_globals"} {
 		var ts world.TxnSpec
 		switch k {
+		case "prior_storage":
+			ts = d.spec("gov2_storage", i)
+			ts.Input = fields("max_charge", "0.4")
 		case "prior_globals":
 			ts = d.spec("gov2_globals", i)
 			ts.Input = fields("server_chain.block.max_block_cost", "9000")
@@ -138,11 +144,11 @@ func (d *drv) twin(b *block.Block, prev *block.Block, root util.Key, txns []*tra
 	return t
 }
 
-// warm gives the chain the state cache of a node that has just executed P: a fresh cache, then P through
-// the real Block.ComputeState (which commits P's values to the global cache).
 // wall time spent per stage (printed with VERIF_DEBUG)
 var tWarm, tGen, tRun time.Duration
 
+// warm gives the chain the state cache of a node that has just executed P: a fresh cache, then P through
+// the real Block.ComputeState (which commits P's values to the global cache).
 func (d *drv) warm() {
 	t0 := time.Now()
 	defer func() { tWarm += time.Since(t0) }()
@@ -203,8 +209,10 @@ func (d *drv) spec(kind string, i int) world.TxnSpec {
 	// a successful settings update of the same contracts (reads the configuration object and saves it)
 	case "govok_miner":
 		return sc(w.Owner, "minersc", "update_settings", fields("max_charge", "0.4"), 0)
-	case "govok_storage":
-		return sc(w.Owner, "storagesc", "update_settings", fields("max_charge", "0.4"), 0)
+	// the storage contract saves its configuration object in two steps: update_settings records the changes,
+	// commit_settings_changes applies the recorded changes (P has recorded one) and saves the object
+	case "govcommit_storage":
+		return sc(w.Owner, "storagesc", "commit_settings_changes", nil, 0)
 	}
 	rec.Fatal("unknown kind %q", kind)
 	return world.TxnSpec{}
